@@ -4,6 +4,7 @@
 let modes : (string * (string -> string)) list = [
   "log", Mode_log.check_line;
   "codec", Mode_codec.check_line;
+  "srvseq", Mode_srvseq.check_line;
 ]
 
 let () =
